@@ -7,7 +7,8 @@ from harness.drivers import engine_cases_ctl as ecc
 ID = "C10"
 PROP_FILE = "Props/C10.v"
 THEOREMS = ["C10_paused_only_when_resumable", "C10_failed_pause_at_top_of_loop", "C10_failed_pause_runs_cleanup",
-            "C10_failed_pause_exit_aborts", "C10_finalize_closes_open_runs", "C10_suspend_request_without_checkpoint_aborts"]
+            "C10_failed_pause_exit_aborts", "C10_finalize_closes_open_runs", "C10_suspend_request_without_checkpoint_aborts",
+            "C10_end_to_end", "C10_any_requests", "C10_full_refuted"]
 impl_batch = cc.impl_batch
 coq_term = cc.coq_term
 RULE = ec.RULE + ("; plus C10 extras: clear_checkpoint at every position of plans with cleanup (try/finally, nested runs, staged and moved "
